@@ -205,6 +205,19 @@ class Extractor:
         ):
             c = ("isnone", self._value(node.left))
             return ("not", c) if isinstance(node.ops[0], ast.IsNot) else c
+        # <token value>.kind == "K" / != "K" / in ("K1", "K2") / not in (...): a test on the kind of a token taken earlier
+        if isinstance(node, ast.Compare) and len(node.ops) == 1 and isinstance(node.left, ast.Attribute) and node.left.attr == "kind" \
+                and isinstance(node.ops[0], (ast.Eq, ast.NotEq, ast.In, ast.NotIn)):
+            comp = node.comparators[0]
+            kinds = None
+            if isinstance(comp, ast.Constant) and isinstance(comp.value, str) and isinstance(node.ops[0], (ast.Eq, ast.NotEq)):
+                kinds = (comp.value,)
+            elif isinstance(comp, (ast.Tuple, ast.List, ast.Set)) and all(isinstance(e, ast.Constant) and isinstance(e.value, str) for e in comp.elts) \
+                    and isinstance(node.ops[0], (ast.In, ast.NotIn)):
+                kinds = tuple(e.value for e in comp.elts)
+            if kinds is not None:
+                c = ("kindin", self._value(node.left.value), kinds)
+                return ("not", c) if isinstance(node.ops[0], (ast.NotEq, ast.NotIn)) else c
         self.err(node, "condition")
 
     # ---- statements -------------------------------------------------------------------
@@ -387,6 +400,38 @@ class PathEnum:
             yes.facts.append((len(yes.events), ("isinstance", val, c[2], True)))
             no.facts.append((len(no.events), ("isinstance", val, c[2], False)))
             return [(yes, True), (no, False)]
+        if t == "kindin":
+            val = self._eval(c[1], path.clone())
+            if val[0] == "ctok":
+                return [(path, val[1] in c[2])]
+            if val[0] != "tokv":
+                raise AnalysisError(f"grammar: `.kind` of something that is not a token taken on this path, in production {self.name}")
+            idx, kinds = val[1], tuple(val[2])
+            if kinds == ("*",):
+                raise AnalysisError(f"grammar: `.kind` test on a token taken by advance() in production {self.name}")
+            yes_k = tuple(k for k in kinds if k in c[2])
+            no_k = tuple(k for k in kinds if k not in c[2])
+            outs = []
+            for ks, truth in ((yes_k, True), (no_k, False)):
+                if not ks:
+                    continue
+                p2 = path.clone()
+                ev = p2.events[idx]
+                p2.events[idx] = (ev[0], ks) + tuple(ev[2:])
+                # every value that refers to this token sees the refined kinds
+                def refine(v):
+                    if isinstance(v, tuple) and v and v[0] == "tokv" and v[1] == idx:
+                        return ("tokv", idx, ks)
+                    if isinstance(v, tuple):
+                        return tuple(refine(x) for x in v)
+                    if isinstance(v, list):
+                        return [refine(x) for x in v]
+                    if isinstance(v, dict):
+                        return {k: refine(x) for k, x in v.items()}
+                    return v
+                p2.env = {k: refine(x) for k, x in p2.env.items()}
+                outs.append((p2, truth))
+            return outs
         if t == "isnone":
             val = self._eval(c[1], path.clone())
             if val[0] == "const":
